@@ -91,10 +91,10 @@ fn render_depth_sort_orders_by_key() {
 // vertex order / cull mode / mirrored viewport, no-std build so that Stats has no timer) to decide the cull arms and the stats
 // bookkeeping: 25 min and 7.8 GB without a verdict (the Vec-based vertex/triangle/clip buffers again). The cull arms stay [U] (L4).
 
-// @ob props=C06 tier=quick kind=B cfg=core-std timeout=1800
+// @ob props=C06,C02 tier=quick kind=B cfg=core-std timeout=1800
 // @fn depth_sort
 // @bound 2 triangles whose vertices share one depth each (so the sort key is 3z, exact up to one rounding); complete in the two depths (all finite z in [-1e6, 1e6], negative clip-space depths included)
-// @clause depth sorting orders by depth for every sign of the key: after FrontToBack the nearer (smaller z) triangle comes first, after BackToFront the farther one; nothing is lost or duplicated
+// @clause depth sorting orders by depth for every sign of the key: after FrontToBack the nearer (smaller z) triangle comes first, after BackToFront the farther one; nothing is lost or duplicated. For C02: the comparator decides every pair by the strict order of the keys (never "equal" for different keys), i.e. it is the total order slice::sort requires -- an inconsistent comparator makes the sort panic on longer inputs
 #[cfg(not(verif_skip_render_depth_sort_two_flat))]
 #[kani::proof]
 #[kani::unwind(10)]
